@@ -129,22 +129,22 @@ fn c14_systematic() -> Vec<Layout> {
         }
         if b >= 16 {
             // self-overlapping range list, non-array (bits 2..=3 named twice) and array form
-            let so = Field { name: "x".into(), kw_bit: false, list: true, ranges: vec![Rng::new(0, 3), Rng::new(2, 5)], array: None, ty: uty(8), access: Access::RW };
+            let so = Field { name: "x".into(), kw_bit: false, list: true, ranges: vec![Rng::new(0, 3), Rng::new(2, 5)], array: None, ty: uty(8), access: Access::RW, arg_order: 0, opt_path: 0 };
             v.push(lay(b, vec![so.clone()]));
             let mut soa = so.clone();
             soa.array = Some(ArrayDecl { count: 2, stride: Some(8), colon: false });
             v.push(lay(b, vec![soa]));
             // the same ranges without the overlap
-            let ok = Field { name: "x".into(), kw_bit: false, list: true, ranges: vec![Rng::new(0, 3), Rng::new(4, 7)], array: None, ty: uty(8), access: Access::RW };
+            let ok = Field { name: "x".into(), kw_bit: false, list: true, ranges: vec![Rng::new(0, 3), Rng::new(4, 7)], array: None, ty: uty(8), access: Access::RW, arg_order: 0, opt_path: 0 };
             v.push(lay(b, vec![ok.clone()]));
             // list array whose elements collide through the stride (element 1 re-uses bits of element 0)
-            let coll = Field { name: "x".into(), kw_bit: false, list: true, ranges: vec![Rng::new(0, 1), Rng::new(4, 5)], array: Some(ArrayDecl { count: 2, stride: Some(4), colon: false }), ty: uty(4), access: Access::RW };
+            let coll = Field { name: "x".into(), kw_bit: false, list: true, ranges: vec![Rng::new(0, 1), Rng::new(4, 5)], array: Some(ArrayDecl { count: 2, stride: Some(4), colon: false }), ty: uty(4), access: Access::RW, arg_order: 0, opt_path: 0 };
             v.push(lay(b, vec![coll.clone()]));
             let mut inter = coll.clone();
             inter.array = Some(ArrayDecl { count: 2, stride: Some(2), colon: false });
             v.push(lay(b, vec![inter])); // interleaves without collision
             // single repeated bit
-            let rep = Field { name: "x".into(), kw_bit: false, list: true, ranges: vec![Rng::bit(3), Rng::new(0, 1), Rng::bit(3)], array: None, ty: uty(4), access: Access::RW };
+            let rep = Field { name: "x".into(), kw_bit: false, list: true, ranges: vec![Rng::bit(3), Rng::new(0, 1), Rng::bit(3)], array: None, ty: uty(4), access: Access::RW, arg_order: 0, opt_path: 0 };
             v.push(lay(b, vec![rep]));
         }
     }
@@ -160,7 +160,7 @@ fn c14_systematic() -> Vec<Layout> {
 }
 
 fn c14_corpus(tier: Tier, seed: u64) -> Vec<Layout> {
-    let n = tier.pick(600usize, 3000usize);
+    let n = tier.pick(600usize, 9000usize);
     let mut v = c14_systematic();
     let mut p = Profile::general();
     p.kinds = [3, 6, 4, 2, 2, 2, 1];
@@ -353,7 +353,7 @@ fn probes_for_field(l: &Layout, fi: usize, tag: &str, expect_r: bool, expect_w: 
 }
 
 pub fn run_c17(rc: &RunCtx) -> Outcome {
-    let n = rc.tier.pick(600usize, 3000usize);
+    let n = rc.tier.pick(600usize, 9000usize);
     let ro = RenderOpts::default();
     let mut layouts: Vec<Layout> = Vec::new();
     // part 1: every field with an rw twin over the same bits
@@ -391,16 +391,49 @@ pub fn run_c17(rc: &RunCtx) -> Outcome {
     p2.need_builder = true;
     p2.ensure_readable = false;
     p2.max_fields = 5;
-    for w in sample_choices(rc.seed, 19, n / 3, 320) {
-        layouts.push(build_layout(&p2, &w));
+    for (k, w) in sample_choices(rc.seed, 19, n / 3, 320).iter().enumerate() {
+        let mut l = build_layout(&p2, w);
+        if k % 2 == 1 {
+            // read-only / unspecified aliases declared after the writable fields they overlap:
+            // they must neither join the builder chain nor make the builder disappear
+            let twins: Vec<Field> = l
+                .fields
+                .iter()
+                .filter(|f| f.access.writable())
+                .map(|f| Field { name: format!("{}a", f.name), access: if k % 4 == 1 { Access::R } else { Access::None }, ..f.clone() })
+                .collect();
+            l.fields.extend(twins);
+        }
+        layouts.push(l);
+    }
+    // part 3: `debug` declarations with fields that are not readable. Whether such a declaration is
+    // accepted is outside C17 (C19 says they do not compile); but *if* the macro accepts one, the access
+    // letters still decide the API surface, so the same presence / absence probes apply.
+    let n_before_debug = layouts.len();
+    {
+        let mut p3 = Profile::general();
+        p3.kinds = [3, 5, 3, 2, 2, 2, 1];
+        p3.shapes = [1, 0, 1, 0];
+        p3.max_array = 0;
+        p3.debug = true;
+        p3.access = AccessMode::MixedWithNone;
+        p3.ensure_readable = false;
+        p3.ensure_writable = false;
+        p3.max_fields = 3;
+        for w in sample_choices(rc.seed, 27, n / 6, 320) {
+            let mut l = build_layout(&p3, &w);
+            let twins: Vec<Field> = l.fields.iter().map(|f| Field { name: format!("{}t", f.name), access: Access::RW, ..f.clone() }).collect();
+            l.fields.extend(twins);
+            layouts.push(l);
+        }
     }
     let mut items = Vec::new();
     for (id, l) in layouts.iter().enumerate() {
-        if !layout_verdict(l).is_valid() {
+        if id < n_before_debug && !layout_verdict(l).is_valid() {
             inconclusive(&format!("generator bug: C17 layout {} not valid\n{}", id, render_layout(l, &ro)));
         }
         let mut probes = Vec::new();
-        if id < n_twin_layouts {
+        if id < n_twin_layouts || id >= n_before_debug {
             for (fi, f) in l.fields.iter().enumerate() {
                 let is_twin = f.name.ends_with('t') && f.access == Access::RW && l.fields.iter().any(|g| format!("{}t", g.name) == f.name);
                 if is_twin {
@@ -448,11 +481,16 @@ pub fn run_c17(rc: &RunCtx) -> Outcome {
     let mut evaluations = 0u64;
     let mut nontrivial = std::collections::BTreeSet::new();
     let mut hist: BTreeMap<String, u64> = BTreeMap::new();
+    let mut debug_rejected = 0u64;
     for mp in ["dev"] {
         let dv = check_decls(rc, "c17decl", &decl_items, mp);
         let mut accepted = Vec::new();
         for it in &items {
             let errs = dv.get(&it.id).cloned().unwrap_or_default();
+            if !errs.is_empty() && it.id >= n_before_debug && !layout_verdict(&layouts[it.id]).is_valid() {
+                debug_rejected += 1;
+                continue; // expected: `debug` with an unreadable field does not compile
+            }
             if !errs.is_empty() {
                 disagreements.push(Disagreement {
                     sig: format!("declaration-rejected/{}", base_class(layouts[it.id].base_bits)),
@@ -508,6 +546,8 @@ pub fn run_c17(rc: &RunCtx) -> Outcome {
         "samples": samples,
         "exhaustive": false,
         "probe_histogram": hist,
+        "debug_declarations_with_unreadable_fields": layouts.len() - n_before_debug,
+        "of_which_rejected_by_the_macro_as_expected": debug_rejected,
         "disagreements_checked": checked,
         "further_disagreements_with_an_already_confirmed_signature": dups,
     });
@@ -525,7 +565,7 @@ fn mk_enum(bits: u32, discs: &[u128], exhaustive: Exh, gated: Option<usize>, spe
     let mut variants: Vec<Variant> = discs
         .iter()
         .enumerate()
-        .map(|(k, d)| Variant { name: format!("V{}", k), disc: Disc::Lit { value: *d, radix: [10u8, 16, 2, 8][k % 4], underscore: k % 5 == 4 }, cfg: Cfg::None })
+        .map(|(k, d)| Variant { name: format!("V{}", k), disc: Disc::Lit { value: *d, radix: [10u8, 16, 2, 8][k % 4], underscore: k % 5 == 4 }, cfg: Cfg::None, style: 0 })
         .collect();
     if let Some(g) = gated {
         let g = g % variants.len();
@@ -588,6 +628,25 @@ pub fn c10_corpus(tier: Tier, seed: u64) -> Vec<EnumDecl> {
                 for ex in exhs {
                     for gated in [None, Some(0usize), Some(discs.len() - 1)] {
                         out.push(mk_enum(n, &discs, ex, gated, 0));
+                        if let Some(g) = gated {
+                            // the cfg after another attribute / after a doc comment / as second of two cfgs
+                            for style in 1..=3u8 {
+                                let mut e = mk_enum(n, &discs, ex, gated, 0);
+                                let gi = g % e.variants.len();
+                                e.variants[gi].style = style;
+                                out.push(e);
+                            }
+                        }
+                    }
+                    // the largest discriminant first / in the middle (order of declaration must not matter)
+                    if discs.len() >= 3 {
+                        let mut d1 = discs.clone();
+                        d1.rotate_right(1);
+                        out.push(mk_enum(n, &d1, ex, None, 0));
+                        let mut d2 = discs.clone();
+                        let last = d2.pop().unwrap();
+                        d2.insert(1, last);
+                        out.push(mk_enum(n, &d2, ex, None, 0));
                     }
                     if *md < full && n <= 4 {
                         for special in 1..=4u8 {
@@ -607,12 +666,21 @@ pub fn c10_corpus(tier: Tier, seed: u64) -> Vec<EnumDecl> {
         }
         // conditional: more than 2^n variants through a disabled duplicate
         let mut e = mk_enum(n, &(0..full).collect::<Vec<_>>(), Exh::Conditional, Some(0), 0);
-        e.variants.push(Variant { name: "Off".into(), disc: Disc::Lit { value: 0, radix: 10, underscore: false }, cfg: Cfg::Never });
+        e.variants.push(Variant { name: "Off".into(), disc: Disc::Lit { value: 0, radix: 10, underscore: false }, cfg: Cfg::Never, style: 0 });
         out.push(e.clone());
         for ex in [Exh::True, Exh::False, Exh::Omitted] {
             let mut e2 = e.clone();
             e2.exhaustive = ex;
             out.push(e2);
+        }
+        // exactly 2^n variants listed, one of them compiled out (first / last / middle), all four flags
+        for off in [0usize, (full as usize) - 1, (full as usize) / 2] {
+            for ex in exhs {
+                let mut e3 = mk_enum(n, &(0..full).collect::<Vec<_>>(), ex, None, 0);
+                e3.variants[off].cfg = Cfg::Never;
+                e3.variants[off].style = (off % 4) as u8;
+                out.push(e3);
+            }
         }
     }
     // storage-class boundaries
@@ -640,7 +708,7 @@ pub fn c10_corpus(tier: Tier, seed: u64) -> Vec<EnumDecl> {
         }
     }
     // random acceptable declarations and one-step mutations of them
-    let reps = tier.pick(60usize, 600usize);
+    let reps = tier.pick(60usize, 4000usize);
     let words = sample_choices(seed, 20, reps, 400);
     for (k, w) in words.iter().enumerate() {
         let mut src = Src::new(w);
